@@ -12,7 +12,7 @@ VERIF = os.path.dirname(os.path.dirname(os.path.abspath(__file__)))
 COQ = os.path.join(VERIF, 'coq')
 RUN = os.path.join(COQ, 'run')
 REPO = os.environ.get('EQSIG_REPO', '/repo')
-EVID = os.path.join(VERIF, 'evidence')
+EVID = os.environ.get('VERIF_EVIDENCE_DIR') or os.path.join(VERIF, 'evidence')   # seeded-change trials write elsewhere
 REPLAYS = os.path.join(VERIF, 'replays')
 NPROC = int(os.environ.get('VERIF_NPROC', '16'))
 
